@@ -280,13 +280,16 @@ func c04Ignore(r *Run, c *c04Ctx) {
 		r.Undecided("C04.R2", "ignore list argument", r.Prog.Pos(a.mapCall.Pos()), shortFunc(fn), "paths to the mapping call cannot be enumerated")
 		return
 	}
-	isEDS, isERS := isParam(c.edsParam), isParam(c.ersParam)
-	canary := loadOfPath(isEDS, "Status", "Canary")
-	ars := loadOfPath(isEDS, "Status", "ActiveReplicaSet")
+	isERS := isParam(c.ersParam)
+	al := a.al
+	// the matchers read field paths through helper parameters (status.Canary with status = &daemonset.Status)
+	canary := func(v ssa.Value) bool { return ipIsC(al, v, c.edsParam, "Status", "Canary") }
+	ars := func(v ssa.Value) bool { return ipIsC(al, v, c.edsParam, "Status", "ActiveReplicaSet") }
+	ersName := func(v ssa.Value) bool { return nameOf(isERS)(v) || ipIsC(al, v, c.ersParam, "Name") }
 	isCanaryNodes := func(v ssa.Value) bool {
 		for i := 0; i < 4; i++ {
 			ld, ok := v.(*ssa.UnOp)
-			if !ok {
+			if !ok || ld.Parent() != fn {
 				break
 			}
 			sv := k.fwd.forward(ld)
@@ -295,7 +298,7 @@ func c04Ignore(r *Run, c *c04Ctx) {
 			}
 			v = sv
 		}
-		return loadOfPath(isEDS, "Status", "Canary", "Nodes")(v)
+		return ipIsC(al, v, c.edsParam, "Status", "Canary", "Nodes")
 	}
 	type agg struct {
 		ok     bool
@@ -304,13 +307,35 @@ func c04Ignore(r *Run, c *c04Ctx) {
 	}
 	classes := map[string]*agg{}
 	c.r2AllOK = true
+	var all []valueAltC
 	for _, p := range paths {
-		v := p.Resolve(arg)
-		fs := p.Facts
+		alts, okA := helperAltsC(p.Resolve(arg), p.Facts, 2000)
+		if !okA {
+			r.Undecided("C04.R2", "ignore list argument", r.Prog.Pos(a.mapCall.Pos()), shortFunc(fn), "the helper computing the ignore list has too many paths")
+			c.r2AllOK = false
+			return
+		}
+		all = append(all, alts...)
+	}
+	for _, alt := range all {
+		v := alt.Val
+		fs := factSet{}
+		for _, f := range alt.Facts {
+			for kk, ff := range f {
+				fs[kk] = ff
+			}
+		}
 		hidden := isCanaryNodes(v)
-		noCanary := nilFactC(fs, true, canary)
-		notActive := eqFactC(fs, false, ars, nameOf(isERS)) ||
-			eqFactC(fs, false, func(x ssa.Value) bool { return unwrap(x) == ssa.Value(c.roleCall) }, isConstStringVal(c.roleVals["active"]))
+		noCanary, notActive := false, false
+		for _, f := range alt.Facts {
+			if nilFactC(f, true, canary) {
+				noCanary = true
+			}
+			if eqFactC(f, false, ars, ersName) ||
+				eqFactC(f, false, func(x ssa.Value) bool { return unwrap(x) == ssa.Value(c.roleCall) }, isConstStringVal(c.roleVals["active"])) {
+				notActive = true
+			}
+		}
 		var construct string
 		good := true
 		switch {
@@ -423,10 +448,22 @@ func c04Removal(r *Run, c *c04Ctx) {
 		if len(fieldStoresInC(fn, pkgStrategy, "Result", "PodsToCreate")) == 0 && len(fieldStoresInC(fn, pkgStrategy, "Result", "PodsToDelete")) == 0 {
 			continue
 		}
+		// ... itself or through a helper of the strategy package that collects the candidates for it
 		ranges := false
-		for _, l := range mapLoopsC(fn) {
-			if isFieldLoadC(l.Map, pkgStrategy, "Parameters", "PodByNodeName") {
-				ranges = true
+		for _, f := range sortedFuncs(r.Prog.reachableFuncs(fn)) {
+			if f.Pkg == nil && f.Parent() == nil {
+				continue
+			}
+			if tf := topFuncC(f); tf.Pkg == nil || tf.Pkg.Pkg.Path() != pkgStrategy {
+				continue
+			}
+			if f != fn && (len(fieldStoresInC(f, pkgStrategy, "Result", "PodsToCreate")) > 0 || len(fieldStoresInC(f, pkgStrategy, "Result", "PodsToDelete")) > 0) {
+				continue // a planner of its own: judged separately
+			}
+			for _, l := range mapLoopsC(f) {
+				if isFieldLoadC(l.Map, pkgStrategy, "Parameters", "PodByNodeName") {
+					ranges = true
+				}
 			}
 		}
 		if !ranges {
@@ -479,6 +516,12 @@ func c04RemovalLoop(fn *ssa.Function) (bool, string) {
 	}
 	for _, b := range fn.Blocks {
 		for _, in := range b.Instrs {
+			// a call of a helper that reads the per-node map is a use of the map
+			if ci, isCall := in.(ssa.CallInstruction); isCall && ci != ssa.CallInstruction(del) {
+				if cal := repoCalleeC(ci.Common()); cal != nil && c04ReadsPodMap(cal, 0) && !loop.Done.Dominates(b) {
+					return false, "a helper using the per-node map is called before the removal loop has completed"
+				}
+			}
 			ld, ok := in.(*ssa.UnOp)
 			if !ok || !isFieldLoadC(ld, pkgStrategy, "Parameters", "PodByNodeName") {
 				continue
@@ -505,7 +548,21 @@ func c04CanaryCandidates(r *Run, c *c04Ctx) {
 	n := 0
 	for _, st := range fieldStoresInC(a.builder, pkgStrategy, "Parameters", "CanaryNodes") {
 		n++
-		ok := loadOfPath(isParam(c.edsParam), "Status", "Canary", "Nodes")(st.Val)
+		// every non-nil value the store can take (through a helper's results too) is Status.Canary.Nodes
+		ok := false
+		nNonNil := 0
+		for _, lf := range ipLeavesC(st.Val) {
+			if isNilConst(lf) {
+				continue
+			}
+			nNonNil++
+			ok = true
+			if !ipIsC(a.al, lf, c.edsParam, "Status", "Canary", "Nodes") {
+				ok = false
+				break
+			}
+		}
+		ok = ok && nNonNil > 0
 		r.Check("C04.R4", "Parameters.CanaryNodes", r.Prog.Pos(instrPos(st)), shortFunc(a.builder), "Parameters.CanaryNodes is the ExtendedDaemonSet's Status.Canary.Nodes", ok, "stored "+descValueC(st.Val))
 	}
 	if n == 0 {
@@ -598,49 +655,52 @@ func c04Labels(r *Run, c *c04Ctx) {
 				ff = computeFacts(fn)
 			}
 			k := ff.K
-			fs := ff.At(ci.Block())
 			switch kind {
 			case "add":
 				nAdd++
-				// pod is PodByNodeName[NodeByName[n]] for n ranging over CanaryNodes
-				onCanaryNode := false
-				if e, ok := podArg.(*ssa.Extract); ok && e.Index == 0 {
-					if l, ok := e.Tuple.(*ssa.Lookup); ok && isFieldLoadC(l.X, pkgStrategy, "Parameters", "PodByNodeName") {
-						if nl, ok := l.Index.(*ssa.Lookup); ok && isFieldLoadC(nl.X, pkgStrategy, "Parameters", "NodeByName") {
-							for _, sl := range sliceLoopsC(fn) {
-								if isFieldLoadC(sl.Slice, pkgStrategy, "Parameters", "CanaryNodes") && sl.isElem(k, nl.Index) && sl.In[ci.Block()] {
-									onCanaryNode = true
-								}
-							}
-						}
+				// The labelled pod is judged where it is selected: at the call itself, or — when the pods
+				// are first collected into a list that is then ranged over (collect, then act) — at every
+				// append that feeds that list, with the facts of the function the append is in.
+				type target struct {
+					pod ssa.Value
+					fn  *ssa.Function
+					blk *ssa.BasicBlock
+				}
+				targets := []target{{podArg, fn, ci.Block()}}
+				for _, sl := range sliceLoopsC(fn) {
+					if !sl.isElem(k, podArg) || !sl.In[ci.Block()] {
+						continue
 					}
-				} else if l, ok := podArg.(*ssa.Lookup); ok && isFieldLoadC(l.X, pkgStrategy, "Parameters", "PodByNodeName") {
-					if nl, ok := l.Index.(*ssa.Lookup); ok && isFieldLoadC(nl.X, pkgStrategy, "Parameters", "NodeByName") {
-						for _, sl := range sliceLoopsC(fn) {
-							if isFieldLoadC(sl.Slice, pkgStrategy, "Parameters", "CanaryNodes") && sl.isElem(k, nl.Index) && sl.In[ci.Block()] {
-								onCanaryNode = true
-							}
+					apps, leaves := sliceChainIPC(sl.Slice)
+					if len(leaves) > 0 || len(apps) == 0 {
+						continue
+					}
+					targets = nil
+					for _, ap := range apps {
+						_, elems, _ := appendPartsC(ap)
+						for _, e := range elems {
+							targets = append(targets, target{e, ap.Parent(), ap.Block()})
 						}
 					}
 				}
+				onCanaryNode, ownPod := len(targets) > 0, len(targets) > 0
+				var factsDesc []string
+				for _, t := range targets {
+					tff := ff
+					if t.fn != fn {
+						tff = computeFacts(t.fn)
+					}
+					if !c04OnCanaryNode(t.pod, t.fn, t.blk, tff.K) {
+						onCanaryNode = false
+					}
+					tfs := tff.At(t.blk)
+					if !c04OwnPodFact(tfs, t.pod, ersKey) {
+						ownPod = false
+						factsDesc = append(factsDesc, descFactsC(tfs))
+					}
+				}
 				r.Check("C04.R6", "canary label added: pod", pos, shortFunc(fn), "the labelled pod is PodByNodeName[NodeByName[n]] for n ranging over Parameters.CanaryNodes", onCanaryNode, "pod "+descValueC(podArg))
-				ownPod := eqFactC(fs, true, func(v ssa.Value) bool {
-					l, ok := unwrap(v).(*ssa.Lookup)
-					if !ok {
-						return false
-					}
-					if s, ok := constString(l.Index); !ok || s != ersKey {
-						return false
-					}
-					// labels of the same pod: pod.Labels / pod.ObjectMeta.Labels / pod.GetLabels()
-					if call, ok := l.X.(*ssa.Call); ok && strings.HasSuffix(calleeName(&call.Call), ".GetLabels") && len(call.Call.Args) == 1 {
-						root, _ := accessPath(call.Call.Args[0])
-						return root == podArg
-					}
-					root, p := accessPath(l.X)
-					return root == podArg && pathIsMetaC(p, "Labels")
-				}, c04ThisRSName)
-				r.Check("C04.R6", "canary label added: owner", pos, shortFunc(fn), "the canary label is added only to a pod whose replica-set label equals this replica set's name", ownPod, "must-facts: "+descFactsC(fs))
+				r.Check("C04.R6", "canary label added: owner", pos, shortFunc(fn), "the canary label is added only to a pod whose replica-set label equals this replica set's name", ownPod, "must-facts: "+strings.Join(factsDesc, " | "))
 				valOK := false
 				for i, arg := range ci.Common().Args {
 					if s, ok := constString(arg); ok && s == canaryVal && i != keyArg {
@@ -753,11 +813,11 @@ func c04LabelEffect(p *Prog, fn *ssa.Function, kp *ssa.Parameter) string {
 			for _, in := range b.Instrs {
 				switch x := in.(type) {
 				case *ssa.MapUpdate:
-					if denotesParamC(x.Key, kp) && hasPathSuffix(x.Map, "Labels") {
+					if denotesParamC(x.Key, kp) && c04IsLabelsMap(f, x.Map) {
 						kind = "add"
 					}
 				case *ssa.Call:
-					if builtinCallC(x, "delete") != nil && denotesParamC(x.Call.Args[1], kp) && hasPathSuffix(x.Call.Args[0], "Labels") {
+					if builtinCallC(x, "delete") != nil && denotesParamC(x.Call.Args[1], kp) && c04IsLabelsMap(f, x.Call.Args[0]) {
 						kind = "remove"
 					}
 				}
@@ -779,4 +839,111 @@ func c04ThisRSName(v ssa.Value) bool {
 	}
 	root, p := accessPath(v)
 	return isPtrToNamed(root.Type(), pkgStrategy, "Parameters") && pathIsMetaC(p, "Replicaset", "Name")
+}
+
+// c04ReadsPodMap: fn (or a repository function it calls, depth-bounded) loads Parameters.PodByNodeName.
+func c04ReadsPodMap(fn *ssa.Function, depth int) bool {
+	if depth > 3 {
+		return true // unknown: assume it does
+	}
+	for _, b := range fn.Blocks {
+		for _, in := range b.Instrs {
+			if ld, ok := in.(*ssa.UnOp); ok && isFieldLoadC(ld, pkgStrategy, "Parameters", "PodByNodeName") {
+				return true
+			}
+			if ci, ok := in.(ssa.CallInstruction); ok {
+				if cal := repoCalleeC(ci.Common()); cal != nil && cal != fn && c04ReadsPodMap(cal, depth+1) {
+					return true
+				}
+			}
+		}
+	}
+	return false
+}
+
+// c04OnCanaryNode: pod is PodByNodeName[NodeByName[n]] (with or without ok) for n the element of a
+// range over Parameters.CanaryNodes that encloses blk.
+func c04OnCanaryNode(pod ssa.Value, fn *ssa.Function, blk *ssa.BasicBlock, k *keyer) bool {
+	var l *ssa.Lookup
+	if e, ok := pod.(*ssa.Extract); ok && e.Index == 0 {
+		l, _ = e.Tuple.(*ssa.Lookup)
+	} else {
+		l, _ = pod.(*ssa.Lookup)
+	}
+	if l == nil || !isFieldLoadC(l.X, pkgStrategy, "Parameters", "PodByNodeName") {
+		return false
+	}
+	nl, ok := l.Index.(*ssa.Lookup)
+	if !ok || !isFieldLoadC(nl.X, pkgStrategy, "Parameters", "NodeByName") {
+		return false
+	}
+	for _, sl := range sliceLoopsC(fn) {
+		if isFieldLoadC(sl.Slice, pkgStrategy, "Parameters", "CanaryNodes") && sl.isElem(k, nl.Index) && sl.In[blk] {
+			return true
+		}
+	}
+	return false
+}
+
+// c04OwnPodFact: the facts contain pod.Labels[<replica-set name label>] == Parameters.Replicaset's name.
+func c04OwnPodFact(fs factSet, pod ssa.Value, ersKey string) bool {
+	return eqFactC(fs, true, func(v ssa.Value) bool {
+		l, ok := unwrap(v).(*ssa.Lookup)
+		if !ok {
+			return false
+		}
+		if s, ok := constString(l.Index); !ok || s != ersKey {
+			return false
+		}
+		// labels of the same pod: pod.Labels / pod.ObjectMeta.Labels / pod.GetLabels()
+		if call, ok := l.X.(*ssa.Call); ok && strings.HasSuffix(calleeName(&call.Call), ".GetLabels") && len(call.Call.Args) == 1 {
+			root, _ := accessPath(call.Call.Args[0])
+			return root == pod
+		}
+		root, p := accessPath(l.X)
+		return root == pod && pathIsMetaC(p, "Labels")
+	}, c04ThisRSName)
+}
+
+// c04IsLabelsMap: m is <object>.Labels, or derives from a parameter of closure f that the function
+// the closure is handed to invokes with <object>.Labels (an "update the labels" callback).
+func c04IsLabelsMap(f *ssa.Function, m ssa.Value) bool {
+	if hasPathSuffix(m, "Labels") {
+		return true
+	}
+	if f.Parent() == nil {
+		return false
+	}
+	for _, o := range origins(m) {
+		pr, ok := o.(*ssa.Parameter)
+		if !ok || pr.Parent() != f {
+			continue
+		}
+		// where is the closure passed?
+		for _, b := range f.Parent().Blocks {
+			for _, in := range b.Instrs {
+				ci, isCall := in.(ssa.CallInstruction)
+				if !isCall {
+					continue
+				}
+				g := repoCalleeC(ci.Common())
+				if g == nil {
+					continue
+				}
+				for j, arg := range ci.Common().Args {
+					mc, isMC := arg.(*ssa.MakeClosure)
+					if !isMC || mc.Fn != ssa.Value(f) || j >= len(g.Params) {
+						continue
+					}
+					// inside g: calls of that function-typed parameter
+					for _, c2 := range callsIn(g) {
+						if c2.Common().Value == ssa.Value(g.Params[j]) && paramIndex(pr) < len(c2.Common().Args) && hasPathSuffix(c2.Common().Args[paramIndex(pr)], "Labels") {
+							return true
+						}
+					}
+				}
+			}
+		}
+	}
+	return false
 }
